@@ -16,7 +16,7 @@ def run_script(exe, cmds, env_extra=None):
     env['ASAN_OPTIONS'] = 'detect_leaks=0'
     if env_extra:
         env.update(env_extra)
-    p = subprocess.Popen([exe, 'uci'], stdin=subprocess.PIPE, stdout=subprocess.PIPE, stderr=subprocess.PIPE, text=True, env=env, bufsize=1)
+    p = subprocess.Popen([exe, 'uci'], stdin=subprocess.PIPE, stdout=subprocess.PIPE, stderr=subprocess.PIPE, text=True, errors='replace', env=env, bufsize=1)
     out, errs = [], []
     cv = threading.Condition()
 
